@@ -14,6 +14,9 @@ Proof.
     + inversion E. eapply IH; eauto.
 Qed.
 
+Lemma snoc_app {A} (d : list A) b r : (d ++ [b]) ++ r = d ++ b :: r.
+Proof. now rewrite <- app_assoc. Qed.
+
 Lemma firstn_S_nth (p : bytes) k : k < length p -> firstn (S k) p = firstn k p ++ [nth k p 0%N].
 Proof.
   revert k. induction p as [|c p IH]; intros k L; simpl in L; [lia|].
@@ -138,10 +141,9 @@ Section Kmp.
   Proof.
     induction rest as [|b rest IH]; intros done cur pf Et Lp Ht Ec.
     - simpl. exists pf. split; [reflexivity|].
-      rewrite app_nil_r in Et. replace (length p) with (S (length done)); [exact Ht|].
-      destruct p; simpl in *; [subst; simpl|subst]; try reflexivity.
-      (* p = [] : tl = [] = done *) 
-      all: try (destruct done; simpl in *; congruence).
+      rewrite app_nil_r in Et. destruct p as [|c q] eqn:Ep.
+      + intros j Hj. simpl in Hj. lia.
+      + simpl in Et. subst q. exact Ht.
     - simpl.
       assert (Lt : length (tl p) = length done + S (length rest)).
       { rewrite Et, app_length. reflexivity. }
@@ -156,13 +158,13 @@ Section Kmp.
       { eapply TableOK_weaken; [|exact Ht]. lia. }
       rewrite Ek.
       apply (IH (done ++ [b]) c (pf ++ [c])).
-      + now rewrite <- app_assoc.
+      + now rewrite snoc_app.
       + rewrite !app_length. simpl. lia.
       + intros j Hj. rewrite app_length in Hj. simpl in Hj.
         destruct (Nat.eq_dec j (S (length done))) as [->|Nj].
         * rewrite <- Lp, nth_middle. 
           replace (firstn (length pf) (tl p)) with (done ++ [b]); [exact Hc|].
-          rewrite Et, Lp. replace (done ++ b :: rest) with ((done ++ [b]) ++ rest) by now rewrite <- app_assoc.
+          rewrite Et, Lp. rewrite <- (snoc_app done b rest).
           rewrite firstn_app. replace (S (length done) - length (done ++ [b])) with 0
             by (rewrite app_length; simpl; lia).
           simpl. rewrite app_nil_r.
@@ -200,19 +202,19 @@ Section Kmp.
       rewrite Ek. destruct (Nat.eqb_spec c (length p)) as [->|Nc].
       + destruct Hc' as ((_ & u & E) & _). rewrite firstn_all in E. split.
         * exists u, s. split.
-          -- rewrite Et. replace (done ++ b :: s) with ((done ++ [b]) ++ s) by now rewrite <- app_assoc.
+          -- rewrite Et. rewrite <- (snoc_app done b s).
              rewrite E. now rewrite <- app_assoc.
           -- apply (f_equal (@length N)) in E. rewrite !app_length in E. simpl in E. lia.
         * intros e' He'. specialize (Hno e' He'). lia.
       + assert (Lc' : c < length p) by (destruct Hc' as ((L & _) & _); lia).
         replace (S (length done)) with (length (done ++ [b])) by (rewrite app_length; simpl; lia).
         apply IH; auto.
-        * now rewrite <- app_assoc.
+        * now rewrite snoc_app.
         * intros e' He'. pose proof (Hno e' He') as H1. rewrite app_length. simpl.
           destruct (Nat.eq_dec e' (S (length done))) as [->|]; [exfalso|lia].
           destruct He' as (u & w & E & El).
           assert (Ed : done ++ [b] = u ++ p).
-          { rewrite Et in E. replace (done ++ b :: s) with ((done ++ [b]) ++ s) in E by now rewrite <- app_assoc.
+          { rewrite Et in E. rewrite <- (snoc_app done b s) in E.
             rewrite app_assoc in E. apply (f_equal (firstn (length (done ++ [b])))) in E.
             rewrite firstn_app, Nat.sub_diag, firstn_all in E. simpl in E. rewrite app_nil_r in E.
             rewrite E. rewrite firstn_app.
